@@ -1,6 +1,7 @@
 mod docenc;
 mod doubles;
 mod drive;
+mod fnprops;
 mod signer;
 mod world;
 
@@ -9,6 +10,7 @@ use std::io::{BufRead, Write};
 fn main() {
     let args: Vec<String> = std::env::args().collect();
     let cmd = args.get(1).map(|s| s.as_str()).unwrap_or("");
+    let seed: u64 = std::env::var("VERIF_SEED").ok().and_then(|s| s.parse().ok()).unwrap_or(1);
     // panics inside the code under test are data; keep the default hook quiet
     std::panic::set_hook(Box::new(|info| {
         let loc = info.location().map(|l| format!("{}:{}", l.file(), l.line())).unwrap_or_default();
@@ -36,6 +38,8 @@ fn main() {
                 }
             }
         }
+        "ver" => fnprops::ver(&args[2], &args[3]),
+        "time" => fnprops::time(&args[2], &args[3], seed),
         _ => {
             eprintln!("usage: vh sm [scenarios.ndjson|-] [log.ndjson|-]");
             std::process::exit(2);
